@@ -19,17 +19,22 @@ Local Open Scope string_scope.
    # line; comment, continuation and quote characters inside literals do not
    start comments or continuations.
 
+   A # line is scanned with the C preprocessor's rules: /* */ and // comments,
+   string and character constants, backslash escapes, backslash-newline
+   splices and block comments that carry the directive over several physical
+   lines; each physical line of the directive is counted iff it holds text
+   outside the comments.
+
    PARTIAL with respect to DESIGN section 5: [wf] excludes, besides what
    Fortran forbids (a character literal neither closed nor continued at a line
-   end; a continuation still pending at end of file), every text with
-     - a backslash anywhere (C-level escapes and backslash-newline splices,
-       which the C pass applies before the Fortran cleaner),
-     - on a # line: a / inside a character constant, or a C block comment
-       still open at the end of the line (C comments closed on their line and
-       // comments on # lines ARE covered),
+   end; a continuation, directive or comment still open at end of file), every
+   text with
+     - a backslash in Fortran text, i.e. outside # lines (C-level escapes and
+       splices, which the C pass applies before the Fortran cleaner),
+     - on a # line: a / inside a character constant, a / or a backslash
+       directly before a backslash-newline splice,
      - a # that directly follows the leading & of a continuation line,
-     - a continuation line of a character literal that holds nothing but
-       blanks of that literal.
+     - a line that holds nothing but blanks of a character literal.
    What happens there is covered by the differential run only (I vs M). *)
 Theorem C17_classification_partial :
   forall ls : list pline, wf ls = true ->
@@ -54,16 +59,16 @@ Print Assumptions C17_directives_as_C.
 
 (* ... and those are the directive lines of THE C PATH.  The directives-only
    pass and the ordinary C pass (c_file_source as used for .c files) are the
-   same function on every text that has no backslash, whose # lines meet the
-   guards above, and whose other lines hold no / ' or double quote: *)
+   same function on every well-formed text whose lines of Fortran text hold no
+   / ' or double quote: *)
 Theorem C17_directives_only_is_C_scanner :
-  forall ls : list pline, cwf ls = true -> inert ls = true -> c_source false ls = c_source true ls.
+  forall ls : list pline, wf ls = true -> inert ls = true -> c_source false ls = c_source true ls.
 Proof. exact c_source_flag. Qed.
 Print Assumptions C17_directives_only_is_C_scanner.
 
 (* Fortran statements do hold quotes and slashes; they are inert for the
-   directives-only pass.  [mask] replaces each of them, on non-directive lines
-   only, by a letter.  For every well-formed Fortran text the directive logical
+   directives-only pass.  [mask] replaces each of them, on lines of Fortran
+   text only (not on # lines or their continuation lines), by a letter.  For every well-formed Fortran text the directive logical
    lines the parser receives are, in order, with identical physical lines and
    identical text, the directive lines that the ORDINARY C scanner finds in the
    masked text. *)
@@ -119,13 +124,17 @@ Qed.
 Print Assumptions C17_classification_refuted_backslash.
 
 (* non-vacuity: a well-formed text with a continued statement whose literal
-   holds ! and &, a comment line and a directive inside the continuation, a
-   split literal with a doubled quote, a sentinel and an ordinary comment *)
+   holds ! and &, a comment line and a directive (with C comments) inside the
+   continuation, a split literal with a doubled quote, a directive whose block
+   comment runs over three lines, a spliced #define, a sentinel and an ordinary
+   comment *)
 Definition C17_example : list pline :=
   lines_of ("x = 'a!&b' // &" ++ nl ++ "  ! note" ++ nl ++ "#ifdef F /* c */ // d" ++ nl ++ "  & 'c''d&" ++ nl ++
-            "   &e'" ++ nl ++ "#endif /* F */" ++ nl ++ "!$omp barrier" ++ nl ++ "! $omp not" ++ nl).
+            "   &e'" ++ nl ++ "#endif /* F" ++ nl ++ "   still the comment" ++ nl ++ " */" ++ nl ++
+            "#define G(x) " ++ String (ascii_of_nat 92) "" ++ nl ++ "   x" ++ nl ++
+            "!$omp barrier" ++ nl ++ "! $omp not" ++ nl).
 Example C17_nonvacuous :
-  wf C17_example = true /\ cwf C17_example = true /\ inert (mask C17_example) = true /\
-  S_lines C17_example = [(1, false); (3, true); (4, false); (5, false); (6, true); (7, false)]%nat /\
-  parse_fortran C17_example = Ok [(false, [1]); (true, [3]); (false, [4; 5]); (true, [6]); (false, [7])]%nat.
+  wf C17_example = true /\ inert (mask C17_example) = true /\
+  S_lines C17_example = [(1, false); (3, true); (4, false); (5, false); (6, true); (9, true); (10, true); (11, false)]%nat /\
+  parse_fortran C17_example = Ok [(false, [1]); (true, [3]); (false, [4; 5]); (true, [6]); (true, [9; 10]); (false, [11])]%nat.
 Proof. vm_compute. repeat split; reflexivity. Qed.
